@@ -71,6 +71,9 @@ type Will struct {
 	ResponseTopic   string
 	CorrelationData []byte
 	UserProps       []KV
+	// XDup (harness only, not compared): the *Publish handed to SetWill has
+	// its DUP bit set - meaningless for a will, but a value a caller can pass.
+	XDup bool
 }
 
 // Packet is the superset record. Each packet type uses the subset of fields
